@@ -1,7 +1,7 @@
 #!/bin/bash
 # usage: seedconfirm.sh <seed-dir> <demo-pkg-dir-relative> [test-run-regex] [extra pkgs to test]
 # Confirms a seeded change in a scratch worktree: builds, existing tests of the touched packages pass,
-# the demonstration passes without and fails with the change.
+# the demonstration passes without and fails with the change.  RACE=1 runs the demonstration under -race.
 set -u
 seed=$1; pkg=$2; run=${3:-.}; extra=${4:-}
 wt=/tmp/seedv-$$
@@ -12,12 +12,12 @@ trap cleanup EXIT
 demo=$(ls $seed/demo*_test.go $seed/demo_test.go 2>/dev/null | head -1)
 cp $demo $wt/$pkg/zz_seed_demo_test.go
 cd $wt
-echo "== demo WITHOUT change"; go test -count=1 -run "$run" ./$pkg 2>&1 | tail -3; r0=${PIPESTATUS[0]}
+echo "== demo WITHOUT change"; go test ${RACE:+-race} -count=1 -run "$run" ./$pkg 2>&1 | tail -3; r0=${PIPESTATUS[0]}
 git apply $seed/patch.diff || { echo "PATCH DOES NOT APPLY"; exit 2; }
 touched=$(git diff --name-only | xargs -n1 dirname | sort -u | sed 's|^|./|')
 echo "== build"; go build ./... && go test -count=1 -run '^$' ./... >/dev/null 2>&1 && echo build-ok
 mv $wt/$pkg/zz_seed_demo_test.go /tmp/zz_seed_demo_$$.go
 echo "== existing tests of touched packages: $touched $extra"; go test -count=1 $touched $extra 2>&1 | tail -6
 mv /tmp/zz_seed_demo_$$.go $wt/$pkg/zz_seed_demo_test.go
-echo "== demo WITH change"; go test -count=1 -run "$run" ./$pkg 2>&1 | tail -5; r1=${PIPESTATUS[0]}
+echo "== demo WITH change"; go test ${RACE:+-race} -count=1 -run "$run" ./$pkg 2>&1 | tail -5; r1=${PIPESTATUS[0]}
 echo "RESULT demo-without-exit=$r0 demo-with-exit=$r1"
